@@ -700,6 +700,9 @@ def run(chk, tier):
     if buflen_rule(chk, D.load("checks")) < 1:
         chk.unknown_instance("BUFLEN", "etl::detail::to_string", "no local array handed to a formatting kernel found")
     parse_rule(chk, D.load("checks"))
+    from ..rules import iters as _ITG
+    _ITG.retarg_area(chk, D.load("checks"), ['_string/sto', '_cstdlib/', '_charconv/'])      # RETARG: helper<X>() with X the caller's result type
+    _ITG.sibname_area(chk, D.load("checks"), ['_string/sto', '_cstdlib/'])      # SIBNAME: strtol / strtoll, atoi / atol / atoll, ... have one body
     chk.assumptions += [
         "digits produced, values parsed, round trips and overflow detection at the type's limits are run-time values and are "
         "not decided by these clauses",
